@@ -112,6 +112,8 @@ pub enum Submit {
 	AggregatedUnderFee,
 	/// one transaction spending an immature coinbase together with a mature one
 	MixedMaturityCoinbases,
+	/// spends outputs of two different pooled transactions (a child with two parents in the pool)
+	DependentTwoParents,
 }
 
 #[derive(Serialize, Deserialize, Clone, Debug, PartialEq)]
@@ -511,6 +513,29 @@ impl<'w> PoolSim<'w> {
 					self.make_spend(&[x], 1, Self::plain_fee(1, 1), None, &mut rng)
 				}
 			}
+			Submit::DependentTwoParents => {
+				let used = self.pool_inputs();
+				let mut per_tx: Vec<OutInfo> = vec![];
+				for t in self.pool.txpool.all_transactions() {
+					for o in t.outputs() {
+						let k = ckey(&o.commitment());
+						if !used.contains(&k) {
+							if let Some(i) = self.world.wallet.known.get(&k) {
+								per_tx.push(i.clone());
+								break;
+							}
+						}
+					}
+				}
+				if per_tx.len() < 2 {
+					None
+				} else {
+					rng.shuffle(&mut per_tx);
+					expect = Some(true);
+					self.probe("two_parent_child_submitted");
+					self.make_spend(&[per_tx[0].clone(), per_tx[1].clone()], 1, Self::plain_fee(2, 1), None, &mut rng)
+				}
+			}
 			Submit::Conflict => {
 				let ledger = self.world.blocks[self.head].ledger.clone();
 				let cands: Vec<OutInfo> = self.pool.txpool.all_transactions().iter().flat_map(|t| tx_inputs(t)).filter_map(|k| ledger.get(&k).cloned()).collect();
@@ -817,7 +842,7 @@ pub fn gen_ops(rng: &mut SimRng, thorough: bool) -> Vec<Op> {
 	for _ in 0..n {
 		let k = rng.below(100);
 		let op = if k < 55 {
-			let kind = match rng.below(28) {
+			let kind = match rng.below(29) {
 				0..=6 => Submit::Valid,
 				7 | 8 => Submit::Dependent,
 				9 | 10 => Submit::Conflict,
@@ -835,7 +860,8 @@ pub fn gen_ops(rng: &mut SimRng, thorough: bool) -> Vec<Op> {
 				23 => Submit::ShiftedFee,
 				24 => Submit::ShiftedUnderpay,
 				25 => Submit::AggregatedUnderFee,
-				_ => Submit::MixedMaturityCoinbases,
+				26 => Submit::MixedMaturityCoinbases,
+				_ => Submit::DependentTwoParents,
 			};
 			Op::Submit { kind, stem: rng.chance(1, 4), r: rng.next_u64() }
 		} else if k < 70 {
@@ -854,14 +880,22 @@ pub fn gen_ops(rng: &mut SimRng, thorough: bool) -> Vec<Op> {
 	// a full pool must not relax admission: somewhere in the second half the capacity drops below
 	// the current size and an under-fee fluff transaction (and a valid one, which evicts) follow
 	let at = (ops.len() / 2 + rng.usize_below(ops.len() / 2 + 1)).min(ops.len());
-	let tail = vec![
+	let mut tail = vec![];
+	if rng.chance(1, 2) {
+		// a fluff child of two pooled parents: eviction must not leave it behind without them
+		tail.push(Op::Submit { kind: Submit::Valid, stem: false, r: rng.next_u64() });
+		tail.push(Op::Submit { kind: Submit::Valid, stem: false, r: rng.next_u64() });
+		tail.push(Op::Submit { kind: Submit::DependentTwoParents, stem: false, r: rng.next_u64() });
+	}
+	tail.extend(vec![
 		// a stem transaction that depends on a pooled one, so that the eviction below may take its parent
 		Op::Submit { kind: Submit::Valid, stem: false, r: rng.next_u64() },
 		Op::Submit { kind: Submit::Dependent, stem: true, r: rng.next_u64() },
 		Op::ShrinkCapacity { to: rng.range(0, 1) as usize },
 		Op::Submit { kind: Submit::UnderFee, stem: false, r: rng.next_u64() },
 		Op::Submit { kind: Submit::Valid, stem: false, r: rng.next_u64() },
-	];
+		Op::Submit { kind: Submit::Valid, stem: false, r: rng.next_u64() },
+	]);
 	for (i, op) in tail.into_iter().enumerate() {
 		ops.insert(at + i, op);
 	}
